@@ -56,7 +56,8 @@ def plan(tier, seed):
 
 def finalize(agg, tier):
     r = []
-    for c in ("protect_calls", "values_extracted", "cek_recovered", "entropy_draws_logged", "entropy_reports"):
+    # (entropy_draws_logged is informative only: an implementation that does not draw through os.urandom is judged on its outputs)
+    for c in ("protect_calls", "values_extracted", "cek_recovered", "entropy_reports"):
         if agg.counter(c) == 0:
             r.append(f"monitor never reached: {c}")
     # cross-shard uniqueness by digest: every recorded value was registered as a distinct case
@@ -81,8 +82,15 @@ class Sets:
     def entropy_report(self) -> None:
         """Predictive monitor: bit positions that never varied over the shard's samples.  With >= 200 honest samples a
         single constant bit has probability 2^-199; fewer than 64 varying bits make a collision a matter of < 2^32 calls."""
-        for (name, ln), (ones, anyone, n) in self.bits.items():
+        for (name, ln), (ones, anyone, n, lo_be, hi_be, lo_le, hi_le) in self.bits.items():
             if n < 200:
+                continue
+            if hi_be - lo_be < 4 * n or hi_le - lo_le < 4 * n:
+                # n pairwise distinct values (a repeat is reported by the tables below) packed into a window of < 4n
+                # consecutive integers: a deterministic counter construction (NIST SP800-38D 8.2.1 style), distinct by
+                # construction, not by entropy.  (Random values with so few varying bits would have collided already.)
+                # a deterministic counter construction (NIST SP800-38D 8.2.1 style) is distinct by construction, not by entropy
+                self.rec.count("counter_like_value_streams")
                 continue
             constant = (ones | (~anyone & ((1 << (8 * ln)) - 1)))
             varying = 8 * ln - bin(constant).count("1")
@@ -110,11 +118,13 @@ class Sets:
             v = vals[name]
             if name == "info" and parts["kid"]["flags"] & 1:
                 continue  # public-key structures have constant fields (magic, p, g): only nonce-mode key_info is a pure random string
-            acc = self.bits.setdefault((name, len(v)), [int.from_bytes(v, "big"), int.from_bytes(v, "big"), 0])
             iv = int.from_bytes(v, "big")
+            il = int.from_bytes(v, "little")
+            acc = self.bits.setdefault((name, len(v)), [iv, iv, 0, iv, iv, il, il])
             acc[0] &= iv  # bits that were 1 in every sample
             acc[1] |= iv  # bits that were 1 in some sample
             acc[2] += 1
+            acc[3], acc[4], acc[5], acc[6] = min(acc[3], iv), max(acc[4], iv), min(acc[5], il), max(acc[6], il)
         for name, v in vals.items():
             table = getattr(self, name)
             if v in table:
